@@ -28,7 +28,7 @@ RULES = [
      "pub(crate) fn run(\n    prog: &Prog,\n    s: &str,\n    pos: usize,\n    option_flags: u32,\n    options: &RegexOptions,\n) -> Result<Option<Vec<usize>>> {\n",
      "pub(crate) fn run<T: Text + ?Sized>(\n    prog: &Prog,\n    s: &T,\n    pos: usize,\n    option_flags: u32,\n    options: &RegexOptions,\n) -> Result<Option<Vec<usize>>>\nwhere\n    Look: LookOn<T::Bytes>,\n{\n"
      "    if let Some(r) = crate::symx_api::intercept(prog, s.len(), pos, option_flags, options) {\n        return r;\n    }\n"
-     "    let _symx_guard = crate::symx_api::RunGuard::enter();\n"),
+     "    let _symx_guard = crate::symx_api::RunGuard::enter(prog.n_saves);\n"),
     ("R2", "vm.rs",
      "fn codepoint_len_at(s: &str, ix: usize) -> usize {",
      "fn codepoint_len_at<T: Text + ?Sized>(s: &T, ix: usize) -> usize {"),
@@ -68,7 +68,17 @@ RULES = [
      "fn codepoint_len<B: Copy + PartialOrd<u8>>(b: B) -> usize {"),
     ("R10", "lib.rs",
      "mod vm;\n",
-     "mod vm;\n#[allow(missing_docs, missing_debug_implementations)]\npub mod symtext;\n#[allow(missing_docs, missing_debug_implementations)]\npub mod engine;\n#[allow(missing_docs, missing_debug_implementations)]\npub mod hirmodel;\n#[allow(missing_docs, missing_debug_implementations)]\npub mod refsem;\n#[allow(missing_docs, missing_debug_implementations)]\npub mod corpus;\n#[allow(missing_docs, missing_debug_implementations)]\npub mod props;\n#[allow(missing_docs, missing_debug_implementations)]\npub mod symx_api;\n"),
+     "mod vm;\n#[allow(missing_docs, missing_debug_implementations)]\npub mod symtext;\n#[allow(missing_docs, missing_debug_implementations)]\npub mod engine;\n#[allow(missing_docs, missing_debug_implementations)]\npub mod hirmodel;\n#[allow(missing_docs, missing_debug_implementations)]\npub mod refsem;\n#[allow(missing_docs, missing_debug_implementations)]\npub mod corpus;\n#[allow(missing_docs, missing_debug_implementations)]\npub mod props;\n#[allow(missing_docs, missing_debug_implementations)]\npub mod props2;\n#[allow(missing_docs, missing_debug_implementations)]\npub mod props3;\n#[allow(missing_docs, missing_debug_implementations)]\npub mod unparse;\n#[allow(missing_docs, missing_debug_implementations)]\npub mod symx_api;\n"),
+    # ---- lib.rs: the three calls of the wrapped automaton -------------------
+    ("R11", "lib.rs",
+     "            RegexImpl::Wrap { inner, .. } => Ok(inner\n                .search(&RaInput::new(text).span(pos..text.len()))\n                .map(|m| Match::new(text, m.start(), m.end()))),\n",
+     "            RegexImpl::Wrap { inner, .. } => Ok(crate::symx_api::wrap_search(inner, text, pos)\n                .map(|(s, e)| Match::new(text, s, e))),\n"),
+    ("R12", "lib.rs",
+     "                inner.captures(RaInput::new(text).span(pos..text.len()), &mut locations);\n",
+     "                crate::symx_api::wrap_captures(inner, text, pos, &mut locations);\n"),
+    ("R13", "lib.rs",
+     "            RegexImpl::Wrap { ref inner, .. } => Ok(inner.is_match(text)),\n",
+     "            RegexImpl::Wrap { ref inner, .. } => Ok(crate::symx_api::wrap_is_match(inner, text)),\n"),
     # ---- instrumentation (add-only, in the copy only) ----------------------
     ("I1", "vm.rs",
      "        'fail: loop {\n",
@@ -88,7 +98,22 @@ RULES = [
      "        let Branch { pc, ix, nsave } = self.stack.pop().unwrap();\n        self.nsave = nsave;\n        crate::symx_api::shadow_pop(pc, ix, &self.saves, self.stack.len());\n"),
     ("I3d", "vm.rs",
      "    fn backtrack_cut(&mut self, count: usize) {\n",
-     "    fn backtrack_cut(&mut self, count: usize) {\n        crate::symx_api::shadow_cut_enter(&self.saves);\n"),
+     "    fn backtrack_cut(&mut self, count: usize) {\n        crate::symx_api::shadow_cut_enter(count);\n"),
+    ("I3e", "vm.rs",
+     "    fn save(&mut self, slot: usize, val: usize) {\n",
+     "    fn save(&mut self, slot: usize, val: usize) {\n        crate::symx_api::shadow_save(slot, val);\n"),
+    ("I3f", "vm.rs",
+     "    fn stack_push(&mut self, val: usize) {\n",
+     "    fn stack_push(&mut self, val: usize) {\n        let _symx_scope = crate::symx_api::OpScope::enter();\n"),
+    ("I3g", "vm.rs",
+     "    fn stack_pop(&mut self) -> usize {\n",
+     "    fn stack_pop(&mut self) -> usize {\n        let _symx_scope = crate::symx_api::OpScope::enter();\n"),
+    ("I3h", "vm.rs",
+     "                    state.stack_push(count);\n",
+     "                    state.stack_push(count);\n                    crate::symx_api::shadow_stack_pushed(count);\n"),
+    ("I3i", "vm.rs",
+     "                    let count = state.stack_pop();\n",
+     "                    let count = state.stack_pop();\n                    crate::symx_api::shadow_stack_popped(count);\n"),
     ("I3c", "vm.rs",
      "        self.stack.truncate(count);\n        self.oldsave.truncate(oldsave_ix);\n        self.nsave = oldsave_ix - oldsave_start;\n",
      "        self.stack.truncate(count);\n        self.oldsave.truncate(oldsave_ix);\n        self.nsave = oldsave_ix - oldsave_start;\n        crate::symx_api::shadow_cut(count, &self.saves, self.stack.len());\n"),
@@ -96,7 +121,7 @@ RULES = [
 
 # rules whose absence is tolerated (instrumentation for a single property): the
 # property that needs them reports INCONCLUSIVE itself.
-OPTIONAL = {"I3a", "I3b", "I3c", "I3d"}
+OPTIONAL = {"I3a", "I3b", "I3c", "I3d", "I3e", "I3f", "I3g", "I3h", "I3i"}
 
 
 def die(msg):
